@@ -573,8 +573,14 @@ func nodeType2(interp *Interpreter, sc *scope, n *node, seen []*node) (t *itype,
 			}
 			break
 		}
-		// Get type of first operand.
-		if t, err = nodeType2(interp, sc, n.child[0], seen); err != nil {
+		// Get type of first operand, or of the second one if the first is nil (nil == x).
+		c0 := n.child[0]
+		if c0.ident == nilIdent && !isShiftNode(n) {
+			if sym, _, ok := sc.lookup(nilIdent); ok && sym.typ != nil && sym.typ.cat == nilT {
+				c0 = n.child[1]
+			}
+		}
+		if t, err = nodeType2(interp, sc, c0, seen); err != nil {
 			return nil, err
 		}
 		// For operators other than shift, get the type from the 2nd operand if the first is untyped.
